@@ -159,14 +159,17 @@ static void far_cells(const pkcfg *c) {
     for (int t = 0; t < 3; t++) {
         uint64_t Ib = T[t] / (uint64_t)c->bits;
         Ib -= Ib % period;
-        for (int side = -1; side <= 0; side++) { /* the period just below and the one containing T */
-            uint64_t I0 = Ib + (uint64_t)((long long)side * (long long)period);
-            for (uint32_t e = 0; e < period; e += (period > 8 ? 3 : 1)) {
-                uint64_t cur = rng_u64() & (ones >> 1);
-                cell_far(c, "Set", period, I0 + e, (e % 2) ? ones : (rng_u64() & ones), 0);
-                cell_far(c, "Incr", period, I0 + e, ones - cur, cur);
-                cell_far(c, "Half", period, I0 + e, 0, rng_u64() & ones);
+        /* the last element below the period that contains T, its first two
+         * elements, one in the middle and its last one */
+        uint64_t pick[5] = {Ib - 1, Ib, Ib + 1, Ib + period / 2, Ib + period - 1};
+        for (int e = 0; e < 5; e++) {
+            if (e > 0 && pick[e] == pick[e - 1]) {
+                continue;
             }
+            uint64_t cur = rng_u64() & (ones >> 1);
+            cell_far(c, "Set", period, pick[e], (e % 2) ? ones : (rng_u64() & ones), 0);
+            cell_far(c, "Incr", period, pick[e], ones - cur, cur);
+            cell_far(c, "Half", period, pick[e], 0, rng_u64() & ones);
         }
     }
 }
